@@ -208,8 +208,9 @@ def best_unordered(S, O, c, lca_only=False, canonical_only=False, max_solutions=
     return overall[0], {json.dumps(x) for x in overall[1]}
 
 
-def valid_ordered(S, O, sol, order_ok=True):
-    """C04 validity of an ordered labelled solution (returns (bool, why))"""
+def valid_ordered(S, O, sol, order_ok=True, pres=None):
+    """C04 validity of an ordered labelled solution (returns (bool, why)); `pres` = the prescribed root synteny, if any
+    (it may hold families no leaf carries: the root must then be exactly that order)"""
     orc = R.Oracle(S)
 
     def go(o, x, parent):
@@ -233,6 +234,10 @@ def valid_ordered(S, O, sol, order_ok=True):
     ok, why = go(O, sol, None)
     if not ok:
         return ok, why
+    if pres is not None:
+        if list(sol[1]) != list(pres):
+            return False, f"root synteny {sol[1]} is not the prescribed order {list(pres)}"
+        return True, ""
     fams = sorted({f for _, l in R.otree_leaves(O) for f in l["syn"]})
     if sorted(sol[1]) != fams:
         return False, f"root synteny {sol[1]} does not hold every family once"
